@@ -650,8 +650,8 @@ static int ec_insert(char *loc, char *cmd, char *arg, char *txt)
 {
 	int beg, end;
 	int n;
-	if (ex_region(loc, &beg, &end) && (beg != 0 || end != 0))
-		return 1;
+	if (ex_region(loc, &beg, &end) && (beg != 0 || end != 0 || lbuf_len(xb)))
+		return 1;	/* only an empty buffer has no line to address */
 	if (cmd[0] == 'a')	/* after the last addressed line; 0a: before the first */
 		beg = end;
 	if (cmd[0] == 'i')	/* before the last addressed line */
